@@ -55,11 +55,33 @@ Proof.
   destruct (last_opt r); reflexivity.
 Qed.
 
+Lemma delta_nonneg_A a b : 0 <= delta a b.
+Proof. unfold delta. lia. Qed.
+
 Ltac by_cases w :=
   destruct w as [[| |] [?s|] [?p|] ?l [?d|]]; try reflexivity.
 
+(* two outcomes that differ in the returned number only: arithmetic *)
+Ltac same_number :=
+  try reflexivity;
+  match goal with
+  | |- (_, Ok (Some ?a)) = (_, Ok (Some ?b)) => replace a with b by lia; reflexivity
+  | |- (_, Ok ?a) = (_, Ok ?b) => replace a with b by lia; reflexivity
+  end.
+
+(* evaluate the state tests of a translated method on an encoded state *)
+Ltac norm :=
+  cbn [enc_state w_state w_started w_stopped w_splits w_duration ostate_eqb fst snd];
+  change (beq C13_STARTED C13_STARTED) with true; change (beq C13_STARTED C13_STOPPED) with false;
+  change (beq C13_STOPPED C13_STOPPED) with true; change (beq C13_STOPPED C13_STARTED) with false;
+  cbn [negb orb andb]; cbv iota.
+
+(* the proofs below are by evaluation on each of the three states; arithmetic side conditions go to lia, so
+   that a behaviour-preserving rewrite of a comparison or of max() in the source still proves *)
 Lemma gen_delta_seconds_equiv earlier later : gen_delta_seconds earlier later = delta earlier later.
-Proof. reflexivity. Qed.
+Proof. unfold gen_delta_seconds, delta. lia. Qed.
+
+Local Opaque delta.   (* keep [rewrite gen_delta_seconds_equiv] from unifying through delta *)
 
 Lemma gen_Split_equiv e l :
   gen_Split e l = mkSplit e l /\ gen_Split_elapsed (mkSplit e l) = e /\ gen_Split_length (mkSplit e l) = l.
@@ -73,7 +95,7 @@ Lemma gen_init_equiv clk g1 g2 g3 g4 g5 t duration :
   end.
 Proof.
   unfold gen_init, init. destruct duration as [d|]; [|reflexivity].
-  destruct (d <? 0); reflexivity.
+  repeat match goal with |- context [if ?c then _ else _] => destruct c eqn:? end; try reflexivity; lia.
 Qed.
 
 Lemma gen_start_equiv clk w t :
@@ -96,38 +118,47 @@ Lemma gen_elapsed_equiv clk w t maximum :
   gen_elapsed clk (enc_state (w_state w)) (w_started w) (w_stopped w) (w_splits w) (w_duration w) t maximum
   = enc_out (elapsed clk w t maximum).
 Proof.
-  by_cases w; destruct maximum as [m|]; try reflexivity;
-    unfold gen_elapsed, elapsed, enc_out, clamp_max; cbn [enc_state w_state w_started w_stopped w_splits w_duration ostate_eqb];
-    change (beq C13_STARTED C13_STARTED) with true; change (beq C13_STARTED C13_STOPPED) with false;
-    change (beq C13_STOPPED C13_STOPPED) with true; change (beq C13_STOPPED C13_STARTED) with false;
-    cbn [negb orb]; change (gen_delta_seconds ?a ?b) with (delta a b);
-    match goal with |- context [?a >? ?b] => destruct (a >? b) end; reflexivity.
+  destruct w as [[| |] [s|] [p|] l d]; destruct maximum as [m|]; try reflexivity;
+    unfold gen_elapsed, elapsed, enc_out, enc, clamp_max; norm; rewrite ?gen_delta_seconds_equiv; try reflexivity;
+    pose proof (delta_nonneg_A s (clk t)); try pose proof (delta_nonneg_A s p);
+    repeat match goal with |- context [if ?c then _ else _] => destruct c eqn:? end;
+    same_number.
 Qed.
+
+(* from here on the translated elapsed() is used through its equivalence only *)
+Ltac use_elapsed clk st sa so sl sd t m :=
+  let HE := fresh "HE" in
+  pose proof (gen_elapsed_equiv clk (mkWatch st sa so sl sd) t m) as HE;
+  cbn [enc_state w_state w_started w_stopped w_splits w_duration] in HE; rewrite HE; clear HE;
+  unfold elapsed, enc_out, enc, clamp_max; norm.
 
 Lemma gen_split_equiv clk w t :
   gen_split clk (enc_state (w_state w)) (w_started w) (w_stopped w) (w_splits w) (w_duration w) t = enc_out (split_ clk w t).
 Proof.
-  destruct w as [[| |] [s|] p l d]; try reflexivity.
-  unfold gen_split, split_, enc_out.
-  cbn [enc_state w_state w_started w_stopped w_splits w_duration ostate_eqb].
-  change (beq C13_STARTED C13_STARTED) with true. cbv iota.
-  pose proof (gen_elapsed_equiv clk (mkWatch SStarted (Some s) p l d) t None) as HE.
-  cbn [enc_state w_state w_started w_stopped w_splits w_duration] in HE. rewrite HE. clear HE.
-  unfold elapsed, enc_out, enc, clamp_max, set_splits. cbn [fst snd enc_state w_state w_started w_stopped w_splits w_duration].
-  pose proof (nonempty_last l) as HL.
-  destruct (last_opt l) as [x|] eqn:EL.
-  - rewrite HL. rewrite !last_opt_app. reflexivity.
-  - subst l. cbn [nonempty app]. reflexivity.
+  destruct w as [[| |] [s|] p l d]; try reflexivity; unfold gen_split, split_, enc_out, enc; norm.
+  use_elapsed clk SStarted (Some s) p l d t (@None Z). unfold set_splits. norm.
+    pose proof (nonempty_last l) as HL.
+    destruct (last_opt l) as [x|] eqn:EL.
+    + rewrite HL. rewrite !last_opt_app. unfold gen_Split, gen_Split_elapsed. rewrite (gen_delta_seconds_equiv (sp_elapsed x)). reflexivity.
+    + subst l. cbn [nonempty app]. reflexivity.
 Qed.
 
 Lemma gen_leftover_equiv clk w t return_none :
   gen_leftover clk (enc_state (w_state w)) (w_started w) (w_stopped w) (w_splits w) (w_duration w) t return_none
   = enc_out (leftover clk w t return_none).
-Proof. by_cases w; destruct return_none; reflexivity. Qed.
+Proof.
+  destruct w as [[| |] sa p l [d|]]; destruct return_none; try reflexivity;
+    unfold gen_leftover, leftover, enc_out, enc; norm;
+    use_elapsed clk SStarted sa p l (Some d) t (@None Z); destruct sa; norm; same_number.
+Qed.
 
 Lemma gen_expired_equiv clk w t :
   gen_expired clk (enc_state (w_state w)) (w_started w) (w_stopped w) (w_splits w) (w_duration w) t = enc_out (expired clk w t).
-Proof. by_cases w. Qed.
+Proof.
+  destruct w as [[| |] sa so l [d|]]; try reflexivity; unfold gen_expired, expired, enc_out, enc; norm.
+  - use_elapsed clk SStarted sa so l (Some d) t (@None Z). destruct sa; norm; same_number.
+  - use_elapsed clk SStopped sa so l (Some d) t (@None Z). destruct sa, so; norm; same_number.
+Qed.
 
 Lemma gen_has_started_equiv clk w t :
   gen_has_started clk (enc_state (w_state w)) (w_started w) (w_stopped w) (w_splits w) (w_duration w) t = enc_out (has_started w t).
@@ -148,6 +179,8 @@ Proof. by_cases w. Qed.
 Lemma gen_exit_equiv clk w t :
   gen_exit clk (enc_state (w_state w)) (w_started w) (w_stopped w) (w_splits w) (w_duration w) t = enc_out (exit_ clk w t).
 Proof. by_cases w. Qed.
+
+Local Transparent delta.
 
 (* the default arguments of the source are the ones the property's calls use *)
 Lemma gen_defaults_equiv :
